@@ -30,7 +30,7 @@ func (d *driver) perRunWorker(a workerArgs, timeout time.Duration) ([]byte, erro
 		one := a
 		one.From, one.To, one.Stride, one.Offset = i, i+1, 1, 0
 		one.Out = a.Out + fmt.Sprintf(".run%d", i)
-		out, err := d.raceRun(one, 3*time.Minute)
+		out, err := d.raceRun(one, 10*time.Minute)
 		lastOut = out
 		rs, rerr := readResults(one.Out)
 		os.Remove(one.Out)
